@@ -1127,7 +1127,7 @@ def cfg_from_desc(r):
     return cfg
 
 
-def replay_one(ctx, r):
+def replay_one(ctx, r, verbose=False):
     """re-run one recorded direct-call input on the implementation (oracle) and the model"""
     if r.get('kind') == 'e2e':
         return replay_e2e(ctx, r)
@@ -1143,8 +1143,9 @@ def replay_one(ctx, r):
     mst, ment = parse_model(o)
     ctx.traces += 1
     ctx.case(key=('replay', str(r['segment'])))
-    ctx.log('replay: implementation %s %r' % (st, ent))
-    ctx.log('replay: model          %s %r' % (mst, ment))
+    if verbose:
+        ctx.log('replay: implementation %s %r' % (st, ent))
+        ctx.log('replay: model          %s %r' % (mst, ment))
     if mst != st or (st == 'ok' and not close(ment, ent, TOL, 1e-300)):
         ctx.disagreements += 1
         ctx.broke('correspondence', 'C10 replay', dict(model=(mst, ment), implementation=(st, ent), input=r))
@@ -1184,11 +1185,11 @@ def run(ctx):
     ctx.lean_check(['Cherab.Props.C10'], 'Cherab/Audit/C10.lean')
     run_corpus(ctx)
     cap = ctx.n(3000, 20000)
-    maps_stream(ctx, ctx.n(60, 600))
-    direct_stream(ctx, ctx.n(1500, 20000), cap)
-    e2e_stream(ctx, ctx.n(120, 1500), cap)
-    period_stream(ctx, ctx.n(150, 2000), cap)
-    pipeline_stream(ctx, ctx.n(4, 40))
+    maps_stream(ctx, ctx.n(100, 1000))
+    direct_stream(ctx, ctx.n(5000, 60000), cap)
+    e2e_stream(ctx, ctx.n(250, 3000), cap)
+    period_stream(ctx, ctx.n(400, 5000), cap)
+    pipeline_stream(ctx, ctx.n(8, 60))
 
 
 def replay(ctx, path):
@@ -1200,7 +1201,7 @@ def replay(ctx, path):
     if isinstance(inp, dict) and ('segment' in inp or inp.get('kind') == 'e2e') and 'voxel_map' in inp:
         ctx.rule = 'replay of one recorded input'
         setup_translator(ctx)
-        replay_one(ctx, inp)
+        replay_one(ctx, inp, verbose=True)
         return ctx.finish()
     run(ctx)
     return ctx.finish()
